@@ -737,9 +737,12 @@ Section Accept.
     | UnknownKey (i : nat) (p : list pk) (k : pk) (x : pv)
     | WrongType (i : nat) (p : list pk) (k : pk) (x : pv)
     | RemoveVar (n : string)                     (* the global variable n is no longer defined *)
-    | CyclicVars (scope : option nat) (a b : string).
+    | CyclicVars (scope : option nat) (a b : string)
         (* the value of variable a additionally mentions variable b: a is a global variable (scope None) or a
            variable of component i (scope Some i) *)
+    | RemoveCompVar (i : nat) (n : string).
+        (* the COMPONENT-level variable n of component i is no longer defined (the variables of a component are
+           private to it: a sibling that defines a variable of the same name does not make it defined) *)
 
   Definition set_refs (f : list cid -> list cid) (c : comp) : comp :=
     mkComp (c_stage c) (c_name c) (f (c_refs c)) (c_uses c) (c_vars c) (c_doc c).
@@ -750,6 +753,9 @@ Section Accept.
 
   Definition set_vars (f : list (string * list string) -> list (string * list string)) (c : comp) : comp :=
     mkComp (c_stage c) (c_name c) (c_refs c) (c_uses c) (f (c_vars c)) (c_doc c).
+
+  Definition drop_var (n : string) (vs : list (string * list string)) : list (string * list string) :=
+    filter (fun e => negb (String.eqb n (fst e))) vs.
 
   Definition add_mention (a b : string) (vs : list (string * list string)) : list (string * list string) :=
     map (fun e => if String.eqb (fst e) a then (fst e, snd e ++ [b]) else e) vs.
@@ -767,6 +773,7 @@ Section Accept.
     | RemoveVar n => mkWf (filter (fun gv => negb (String.eqb n (fst gv))) (w_gvars w)) (w_comps w)
     | CyclicVars None a b => mkWf (add_mention a b (w_gvars w)) (w_comps w)
     | CyclicVars (Some i) a b => mkWf (w_gvars w) (upd_nth i (set_vars (add_mention a b)) (w_comps w))
+    | RemoveCompVar i n => mkWf (w_gvars w) (upd_nth i (set_vars (drop_var n)) (w_comps w))
     end.
 End Accept.
 
